@@ -278,7 +278,11 @@ def run(p: Program, rep: Report, tier: str) -> None:
                     else:
                         node, f = col.nodes[e.tag]
                         rep.violation("R7.5", construct(call, text=f"redirect {show(url)[:80] if url else ''}"), where(call, node), f"{side} Pages: the redirect target is not the request URL with '/' appended to its path")
-    rep.require_instances("R7.5", 8)
+    # the redirect target is computed from URL(scope=...) / URL(environ=...): both branches of that constructor must hand the
+    # gateway's own root path + path to the builder (shared with C18/R18.1), otherwise a mounted Pages app redirects elsewhere
+    from .c18 import gateway_url_branches
+    gateway_url_branches(p, rep, "R7.5")
+    rep.require_instances("R7.5", 20)
 
     # ---------------------------------------------------------------- R7.6 what is served is read from the resolved file, per request
     # no function on the serving path keeps file content (or anything else) in a container that outlives the request:
